@@ -236,4 +236,38 @@ RunEv(text, cf, p, st, nt, ev) ==
         ELSE IF r.emit # <<>> /\ r.emit[1].t = "EOF" THEN ev2
         ELSE RunEv(text, cf, IF r.rew THEN p ELSE p + 1, r.st, nt + Len(r.emit), ev2)
 Events(text, cf) == RunEv(text, cf, 1, LInit, 0, <<>>)
+
+(* ---- the caller's view: BaseTokenizer.__call__, peek(), push_back(), expect() ---------- *)
+\* The lexer is consumed one token at a time; pushed-back tokens are returned first (last in,
+\* first out) and do not touch line_num.  L = Lex(text, cf); s = [k |-> tokens taken from the
+\* lexer, pb |-> push-back stack, l |-> line_num].  Every operation returns
+\* [s |-> state, res |-> token or NoTok, err |-> NoErrL or the error raised].
+ValueToks == {"STRING", "PAREN_ARGS", "DIRECTIVE", "COMMENT", "PROP_FLAG"}
+FixedVal(t) == CASE t = "EOF" -> <<>> [] t = "NEWLINE" -> <<LF>> [] t = "BRACE_OPEN" -> <<LBRACE>> [] t = "BRACE_CLOSE" -> <<RBRACE>>
+                 [] t = "PAREN_OPEN" -> <<LPAREN>> [] t = "PAREN_CLOSE" -> <<RPAREN>> [] t = "BRACK_OPEN" -> <<LBRACK>>
+                 [] t = "BRACK_CLOSE" -> <<RBRACK>> [] t = "COLON" -> <<COLON>> [] t = "EQUALS" -> <<EQUALS>>
+                 [] t = "PLUS" -> <<PLUS>> [] t = "COMMA" -> <<COMMA>>
+NoTok == Tok("", <<>>)
+CallInit == [k |-> 0, pb |-> <<>>, l |-> 1]
+CR3(s, res, err) == [s |-> s, res |-> res, err |-> err]
+FromLexer(L, s) ==
+    IF s.k < Len(L.toks)
+    THEN CR3([s EXCEPT !.k = s.k + 1, !.l = L.toks[s.k + 1].l], Tok(L.toks[s.k + 1].t, L.toks[s.k + 1].v), NoErrL)
+    ELSE IF L.err # NoErrL THEN CR3([s EXCEPT !.l = L.err.l], NoTok, L.err)
+    ELSE CR3(s, EofTok, NoErrL)                                     \* EOF for ever
+Call(L, s) ==
+    IF s.pb # <<>> THEN CR3([s EXCEPT !.pb = SubSeq(s.pb, 1, Len(s.pb) - 1)], s.pb[Len(s.pb)], NoErrL)
+    ELSE FromLexer(L, s)
+Peek(L, s) == LET c == Call(L, s) IN
+    IF c.err # NoErrL THEN c ELSE CR3([c.s EXCEPT !.pb = Append(c.s.pb, c.res)], c.res, NoErrL)
+\* the value given for a token without a value of its own is ignored
+PushBack(s, t, v) == CR3([s EXCEPT !.pb = Append(s.pb, Tok(t, IF t \in ValueToks THEN v ELSE FixedVal(t)))], NoTok, NoErrL)
+\* expect(token, skip_newline): newlines are skipped unless a newline is what is expected
+RECURSIVE ExpectFrom(_, _, _, _)
+ExpectFrom(L, s, t, skip) ==
+    LET c == Call(L, s) IN
+    IF c.err # NoErrL THEN c
+    ELSE IF skip /\ t # "NEWLINE" /\ c.res.t = "NEWLINE" THEN ExpectFrom(L, c.s, t, skip)
+    ELSE IF c.res.t # t THEN CR3(c.s, NoTok, [id |-> "expect/" \o t \o "/" \o c.res.t, arg |-> 0, l |-> c.s.l])
+    ELSE c
 =============================================================================
